@@ -87,6 +87,28 @@ def _work(item):
         if sag > 1.05 * (1.02 * r) ** 2 / (8 * R) + 1e-9 and r <= R:
             out.append((f"{shape}:chord-error", f"{label}: sagitta {sag:.6g} exceeds r^2/(8R) = {r * r / (8 * R):.6g}", rp))
         return out, n
+    if kind == "live-change":
+        # the resolution is changed on a live builder between two traces: the second trace must honour the new value
+        label, builder, L, R = constant_speed_cases(tier)[idx]
+        r1, r2 = resolution, resolution / 4
+        run = TraceRun(START, mode, direction, r1, dp=8, units=units)
+        shape, args, exp = c10.circle_case(START, direction, R, 60)
+        exc, verts = run.trace(shape, args, start=START)
+        run.st.g.set_resolution(float(r2))
+        run.st.g.set_direction("counter" if direction == "clockwise" else "clockwise")
+        r = float(run.st.g.state.resolution)
+        exc2, verts2 = run.trace(shape, args, start=START)
+        rp = {"kind": kind, "index": idx, "label": f"circle R{R} twice", "resolution": resolution, "direction": direction, "mode": mode, "units": units}
+        if exc is not None or exc2 is not None:
+            return [(f"{shape}:raised", f"circle R{R}: {exc!r} / {exc2!r}", rp)], 0
+        pts = [START] + verts2
+        segs = [dist(pts[i], pts[i + 1]) for i in range(len(verts2))]
+        Lc = TWO_PI * R
+        if max(segs) > 1.02 * r + 1e-6:
+            out.append((f"{shape}:segment-longer-than-resolution:after-set_resolution", f"circle R{R}: resolution changed {r1} -> {r} on a live builder, longest segment {max(segs):.6g}", rp))
+        if not (Lc / (1.02 * r) - 1 <= len(segs) <= Lc / (0.88 * r) + 2):
+            out.append((f"{shape}:segment-count-not-proportional:after-set_resolution", f"circle R{R}: resolution changed {r1} -> {r} on a live builder, {len(segs)} segments for length {Lc:.6g}", rp))
+        return out, len(segs)
     # monotonicity: halving the resolution never yields fewer segments
     label, builder = other_shapes()[idx] if kind == "mono-other" else (constant_speed_cases(tier)[idx][0], constant_speed_cases(tier)[idx][1])
     counts = []
@@ -116,6 +138,10 @@ def run(tier, seed):
                 items.append(("speed", idx, r, "counter" if idx % 2 else "clockwise", "relative", "in", tier))
         if L <= 700:
             items.append(("mono-speed", idx, 1.0 if R >= 1 else 0.5, "clockwise", "absolute", None, tier))
+    for idx, (label, b, L, R) in enumerate(cases):
+        if label.startswith("circle"):
+            items.append(("live-change", idx, min(R, 2.0), "clockwise", "absolute", None, tier))
+            items.append(("live-change", idx, min(R, 2.0), "counter", "relative", None, tier))
     for idx, _ in enumerate(other_shapes()):
         for r in (2.0, 0.5):
             items.append(("mono-other", idx, r, "counter", "absolute", None, tier))
